@@ -1978,9 +1978,9 @@ Proof.
   - cbn [fst wr_rc]. intros Hrc. lia.
   - intros _. split; [lia|].
     pose proof (commit_io_fields sr ss (ex_st ex) (ex_put ex) (ex_get ex) (0 <? Zlen (ex_put ex))
-                  (0 <? Zlen (ex_get ex)) (newnumrecs_loop (ex_st ex) (ex_nwl ex)) file) as Hio.
+                  (0 <? Zlen (ex_get ex)) (newnumrecs_loop (ex_st ex)) file) as Hio.
     destruct (commit_io sr ss (ex_st ex) (ex_put ex) (ex_get ex) (0 <? Zlen (ex_put ex))
-                (0 <? Zlen (ex_get ex)) (newnumrecs_loop (ex_st ex) (ex_nwl ex)) file) as [st2 file'].
+                (0 <? Zlen (ex_get ex)) (newnumrecs_loop (ex_st ex)) file) as [st2 file'].
     cbn [fst] in Hio. destruct Hio as (H1 & H2 & H3 & H4 & H5 & H6).
     exists st2. destruct (commit_post st2 (ex_nwl ex) (ex_nrl ex)) as [st3 ev].
     cbn [fst snd wr_st wr_ev]. repeat split; assumption.
